@@ -499,75 +499,89 @@ theorem newDeviceResult_nil_iff (f : S_devicefinder_Default) (p : Option S_agd_P
 
 theorem isProfileDBNotFound_eq (err : Option String) (a b : Bool) : isProfileDBNotFound err a b = (a || b) := rfl
 
-/-! ## Around `Find`: `Wrap`, `isBlockedByAccess`, `DeviceData`, `newDeviceFinder` (round 3b) -/
+/-! ## Around `Find`: `Wrap`, `isBlockedGlobally` / `isBlockedByProfile`, `DeviceData`, `newDeviceFinder` (round 3b) -/
 
 /-- Is the model outcome "handed to the next stages"? -/
 def isNext : Agd.Device.Served → Bool
   | .next _ => true
   | _ => false
 
-/-- `isBlockedByAccess`: global address, global host, then the access list of the profile that
-`DeviceData()` returns — and of no other. -/
-theorem isBlockedByAccess_eq (mw : S_ratelimitmw_Middleware) (ri : Option S_agd_RequestInfo) (host name : String)
-    (ip hostB prof : Bool) (dd : Option S_agd_Profile × Option S_agd_Device) :
-    (isBlockedByAccess mw ri host name ip hostB dd prof).1 = (ip || hostB || (dd.1.isSome && prof)) := by
-  unfold isBlockedByAccess
-  cases ip <;> cases hostB <;> cases prof <;> cases h : dd.1 <;> simp [h]
+/-- The access check (two halves since the C10 repair: the global one runs before the device look-up, the
+profile's after it): global address, then global host …  -/
+theorem isBlockedGlobally_eq (mw : S_ratelimitmw_Middleware) (u : Unit) (host name : String) (ip hostB : Bool) (qt : Int) :
+    (isBlockedGlobally mw u host name ip hostB qt).1 = (ip || hostB) := by
+  unfold isBlockedGlobally
+  cases ip <;> cases hostB <;> simp
 
-/-- The profile's access list is consulted only when `DeviceData()` returned a profile, and the access
-check never returns the pooled request information (`Put` belongs to `Wrap` alone). -/
+/-- … then the access list of the profile that `DeviceData()` returns — and of no other. -/
+theorem isBlockedByProfile_eq (mw : S_ratelimitmw_Middleware) (ri : Option S_agd_RequestInfo)
+    (prof : Bool) (dd : Option S_agd_Profile × Option S_agd_Device) :
+    (isBlockedByProfile mw ri dd prof).1 = (dd.1.isSome && prof) := by
+  unfold isBlockedByProfile
+  cases prof <;> cases h : dd.1 <;> simp [h]
+
+/-- The profile's access list is consulted only when `DeviceData()` returned a profile, and neither half of
+the access check returns the pooled request information (`Put` belongs to `Wrap` alone). -/
 theorem isBlockedByAccess_profile_only (mw : S_ratelimitmw_Middleware) (ri : Option S_agd_RequestInfo)
-    (host name : String) (ip hostB prof : Bool) (dd : Option S_agd_Profile × Option S_agd_Device) :
-    let tr := names (isBlockedByAccess mw ri host name ip hostB dd prof).2
-    ("IsBlocked" ∈ tr → dd.1.isSome = true ∧ ip = false ∧ hostB = false) ∧ "Put" ∉ tr := by
-  unfold isBlockedByAccess names
+    (u : Unit) (host name : String) (ip hostB prof : Bool) (qt : Int) (dd : Option S_agd_Profile × Option S_agd_Device) :
+    let trP := names (isBlockedByProfile mw ri dd prof).2
+    let trG := names (isBlockedGlobally mw u host name ip hostB qt).2
+    ("IsBlocked" ∈ trP → dd.1.isSome = true) ∧ "Put" ∉ trP ∧ "Put" ∉ trG ∧ "IsBlocked" ∉ trG := by
+  unfold isBlockedByProfile isBlockedGlobally names
   cases ip <;> cases hostB <;> cases prof <;> cases h : dd.1 <;> simp [h]
 
-/-- The complete order of effects of the handler, in every run. -/
-def wrapTrace (port : Int) (locErr blocked cont : Bool) : List String :=
+/-- The complete order of effects of the handler, in every run (`blockedG`: the global half, asked before
+any look-up; `blockedP`: the profile half, asked with the device result in hand). -/
+def wrapTrace (port : Int) (locErr blockedG blockedP cont : Bool) : List String :=
   if port = 0 then ["OnRateLimited"]
-  else ["location", "newRequestInfo", "isBlockedByAccess"] ++
-    (if blocked then []
+  else if blockedG then ["isBlockedGlobally"]
+  else ["isBlockedGlobally", "location", "newRequestInfo", "isBlockedByProfile"] ++
+    (if blockedP then []
      else "handleDeviceResult" ::
        (if !cont then ["serveDeviceErr"] else if locErr then ["serveLocationErr"]
         else ["ContextWithRequestInfo", "serveWithRatelimiting"])) ++ ["Put"]
 
 theorem wrap_trace (mw : S_ratelimitmw_Middleware) (port : Int) (lc : Option S_geoip_Location × Option S_dnsmsg_ECS × Option String)
-    (ri : S_agd_RequestInfo) (blocked : Bool) (hd : Bool × Option String) (de le next : Option String) (cx : AbsPtr) :
-    (Wrap_handler mw () port () lc (some ri) blocked hd de le cx next).map (fun x => names x.2) =
-      some (wrapTrace port lc.2.2.isSome blocked hd.1) := by
+    (ri : S_agd_RequestInfo) (blockedG blockedP : Bool) (hd : Bool × Option String) (de le next : Option String) (cx : AbsPtr) :
+    (Wrap_handler mw () port () blockedG lc (some ri) blockedP hd de le cx next).map (fun x => names x.2) =
+      some (wrapTrace port lc.2.2.isSome blockedG blockedP hd.1) := by
   unfold Wrap_handler wrapTrace
   by_cases h0 : port = 0
   · simp [h0, names]
-  · cases blocked <;> cases hc : hd.1 <;> cases hl : lc.2.2 <;> simp [h0, hc, hl, names]
+  · cases blockedG <;> cases blockedP <;> cases hc : hd.1 <;> cases hl : lc.2.2 <;> simp [h0, hc, hl, names]
 
-/-- The handler that `Wrap` returns is the model's `wrap`: with `blocked` the result of
-`isBlockedByAccess` and `cont` that of `handleDeviceResult` (and a well-formed ECS option), the request
-information reaches the context and the rate limiter / next handler exactly when the model says `.next`. -/
+/-- The handler that `Wrap` returns is the model's `wrap`: with `blockedG` / `blockedP` the results of the
+two halves of the access check and `cont` that of `handleDeviceResult` (and a well-formed ECS option), the
+request information reaches the context and the rate limiter / next handler exactly when the model says
+`.next`. -/
 theorem wrap_tr (port : Int) (g : Agd.Device.Gate) (r : Agd.Device.Result) (hp : g.port0 = decide (port = 0)) :
-    let tr := wrapTrace port false (g.blockedIP || g.blockedHost || Agd.Device.profileBlocked g r) (Agd.Device.continues r)
+    let tr := wrapTrace port false (g.blockedIP || g.blockedHost) (Agd.Device.profileBlocked g r) (Agd.Device.continues r)
     ("serveWithRatelimiting" ∈ tr ↔ isNext (Agd.Device.wrap g r) = true) ∧
     ("ContextWithRequestInfo" ∈ tr ↔ isNext (Agd.Device.wrap g r) = true) := by
   unfold wrapTrace Agd.Device.wrap
   by_cases h0 : port = 0
   · simp [h0, hp, isNext]
   · have hp' : g.port0 = false := by simp [hp, h0]
-    cases hb : (g.blockedIP || g.blockedHost || Agd.Device.profileBlocked g r)
-    · cases r <;> simp [h0, hp', hb, isNext, Agd.Device.continues]
-    · simp [h0, hp', hb, isNext]
+    cases hg : (g.blockedIP || g.blockedHost) <;> cases hb : Agd.Device.profileBlocked g r
+    · cases r <;> simp [h0, hp', hg, hb, isNext, Agd.Device.continues]
+    · simp [h0, hp', hg, hb, isNext]
+    · simp [h0, hp', hg, hb, isNext]
+    · simp [h0, hp', hg, hb, isNext]
 
 /-- The pooled request information is returned exactly once, as the last thing, in every run that took
-one (access-blocked, device error, malformed ECS, served); a request from port 0 takes none and runs no
-look-up at all. -/
-theorem wrap_put_once (port : Int) (locErr blocked cont : Bool) :
-    (port = 0 → wrapTrace port locErr blocked cont = ["OnRateLimited"]) ∧
-    (port ≠ 0 → (wrapTrace port locErr blocked cont).count "Put" = 1 ∧
-      (wrapTrace port locErr blocked cont).getLast? = some "Put" ∧
-      (wrapTrace port locErr blocked cont).take 2 = ["location", "newRequestInfo"]) := by
-  constructor
+one (profile-blocked, device error, malformed ECS, served); a request from port 0 and a globally blocked
+request take none and run no look-up at all. -/
+theorem wrap_put_once (port : Int) (locErr blockedG blockedP cont : Bool) :
+    (port = 0 → wrapTrace port locErr blockedG blockedP cont = ["OnRateLimited"]) ∧
+    (port ≠ 0 → blockedG = true → wrapTrace port locErr blockedG blockedP cont = ["isBlockedGlobally"]) ∧
+    (port ≠ 0 → blockedG = false → (wrapTrace port locErr blockedG blockedP cont).count "Put" = 1 ∧
+      (wrapTrace port locErr blockedG blockedP cont).getLast? = some "Put" ∧
+      (wrapTrace port locErr blockedG blockedP cont).take 3 = ["isBlockedGlobally", "location", "newRequestInfo"]) := by
+  refine ⟨?_, ?_, ?_⟩
   · intro h; simp [wrapTrace, h]
-  · intro h
-    cases locErr <;> cases blocked <;> cases cont <;> simp [wrapTrace, h] <;> decide
+  · intro h hg; simp [wrapTrace, h, hg]
+  · intro h hg
+    cases locErr <;> cases blockedP <;> cases cont <;> simp [wrapTrace, h, hg] <;> decide
 
 /-- `RequestInfo.DeviceData`: a profile and device come out only of a `*DeviceResultOK` — its own —
 and for every other result both are nil. -/
